@@ -5,7 +5,7 @@
    by line, including which exception escapes and whether the list or the dict
    is touched first. *)
 From Coq Require Import List Bool ZArith NArith Lia.
-From PC Require Import Base.Outcome Base.Py.
+From PC Require Import Base.Outcome Base.Py Base.IlProg Gen.IndexedList.
 Import ListNotations.
 Open Scope Z_scope.
 
@@ -60,7 +60,9 @@ Definition position (s : il) (k : key) : outcome Z :=
 (* result reported to the caller: the popped object's uid, or nothing *)
 Definition ret := option N.
 
-Definition step (s : il) (o : op) : il * outcome ret :=
+(* the hand-written reading of the mutators (reference; [step] below interprets the generated programs
+   and Proofs/IndexedList.v shows step = step_ref) *)
+Definition step_ref (s : il) (o : op) : il * outcome ret :=
   match o with
   | Append x => (IL (items s ++ [x]) (addindex (index s) x), Ok None)
   | Extend xs | IAdd xs => (IL (items s ++ xs) (fold_left addindex xs (index s)), Ok None)
@@ -118,6 +120,145 @@ Definition step (s : il) (o : op) : il * outcome ret :=
   | BulkFail => (s, Raise PyOther)      (* the argument is copied into a list before anything is touched *)
   | ExtendSelf => (IL (items s ++ items s) (fold_left addindex (items s) (index s)), Ok None)
   | ReassignRev => (of_list (rev (items s)), Ok None)
+  end.
+
+(* ------------------------------------------------------------------------- *)
+(* INTERPRETER of the programs of Gen/IndexedList.v (one instruction per statement of the Python
+   method, in source order).  A failing instruction stops the method with the state reached so
+   far, so the order of list operation and index update, and of argument materialisation and
+   mutation, is observable. *)
+
+(* a bulk argument: its elements, whether it can be traversed only once (generator / iterator:
+   the worst case every plain argument stands for), whether it raises when exhausted *)
+Record iterv := IT { it_content : list obj; it_oneshot : bool; it_fails : bool }.
+Definition consume (it : iterv) : list obj * iterv :=
+  (it_content it, if it_oneshot it then IT [] true (it_fails it) else it).
+
+(* the method's local variables *)
+Record regs := RG { r_key : key; r_pos : Z; r_obj : obj; r_it : iterv; r_tgt : option N; r_ret : ret }.
+Definition set_pos (r : regs) (z : Z) := RG (r_key r) z (r_obj r) (r_it r) (r_tgt r) (r_ret r).
+Definition set_it (r : regs) (it : iterv) := RG (r_key r) (r_pos r) (r_obj r) it (r_tgt r) (r_ret r).
+Definition set_tgt (r : regs) (t : option N) := RG (r_key r) (r_pos r) (r_obj r) (r_it r) t (r_ret r).
+Definition set_ret (r : regs) (x : ret) := RG (r_key r) (r_pos r) (r_obj r) (r_it r) (r_tgt r) x.
+
+Inductive res := Cont (s : il) (r : regs) | Fail (s : il) (e : exn).
+
+Fixpoint run_list (ex : il -> regs -> instr -> res) (p : list instr) (s : il) (r : regs) : res :=
+  match p with
+  | [] => Cont s r
+  | i :: p' => match ex s r i with
+               | Cont s' r' => run_list ex p' s' r'
+               | Fail s' e => Fail s' e
+               end
+  end.
+
+Definition exec_list (o : listop) (s : il) (r : regs) : res :=
+  match o with
+  | LInsert => Cont (IL (list_insert (r_pos r) (r_obj r) (items s)) (index s)) r
+  | LSetItem => match norm_index (length (items s)) (r_pos r) with
+                | None => Fail s PyIndexError
+                | Some n => Cont (IL (replace_at n (r_obj r) (items s)) (index s)) r
+                end
+  | LDelItem => match norm_index (length (items s)) (r_pos r) with
+                | None => Fail s PyIndexError
+                | Some n => Cont (IL (remove_at n (items s)) (index s)) r
+                end
+  | LPop => match norm_index (length (items s)) (r_pos r) with
+            | None => Fail s PyIndexError
+            | Some n => match nth_error (items s) n with
+                        | None => Fail s PyIndexError
+                        | Some x => Cont (IL (remove_at n (items s)) (index s)) (set_ret r (Some (ouid x)))
+                        end
+            end
+  | LExtend => let '(xs, it') := consume (r_it r) in
+               let s' := IL (items s ++ xs) (index s) in
+               if it_fails (r_it r) then Fail s' PyOther else Cont s' (set_it r it')
+  | LInit => let '(xs, it') := consume (r_it r) in
+             if it_fails (r_it r) then Fail s PyOther else Cont (IL xs (index s)) (set_it r it')
+  | LAppend => Cont (IL (items s ++ [r_obj r]) (index s)) r
+  | LClear => Cont (IL [] (index s)) r
+  | LReverse => Cont (IL (rev (items s)) (index s)) r
+  | LSort => Cont s r                 (* sort() is outside the property's operation list: not modelled *)
+  end.
+
+Fixpoint exec (fuel : nat) (s : il) (r : regs) (i : instr) {struct fuel} : res :=
+  match i with
+  | IPosition => match position s (r_key r) with
+                 | Ok z => Cont s (set_pos r z)
+                 | Raise e => Fail s e
+                 end
+  | IMaterialise => if it_fails (r_it r) then Fail s PyOther
+                    else Cont s (set_it r (IT (it_content (r_it r)) false false))
+  | IMaterialiseIfSlice => Cont s r                     (* positions are integers here *)
+  | ILookupOrSelf caught =>
+      (* self._index[x]: a hit for a key that is in the dict, KeyError otherwise (objects and
+         integers are never keys); a caught KeyError makes the argument itself the target *)
+      match r_key r with
+      | KId a => match iget (index s) a with
+                 | Some u => Cont s (set_tgt r (Some u))
+                 | None => if caught_b PyKeyError caught then Cont s (set_tgt r None)   (* a bare string is never an element *)
+                           else Fail s PyKeyError
+                 end
+      | KObj x => if caught_b PyKeyError caught then Cont s (set_tgt r (Some (ouid x))) else Fail s PyKeyError
+      | KInt _ => if caught_b PyKeyError caught then Cont s (set_tgt r None) else Fail s PyKeyError
+      end
+  | IListIndex => match r_tgt r with
+                  | None => Fail s PyValueError
+                  | Some u => match pos_of_uid (items s) u with
+                              | None => Fail s PyValueError
+                              | Some n => Cont s (set_pos r (Z.of_nat n))
+                              end
+                  end
+  | IList o => exec_list o s r
+  | IAddIndexArg => Cont (IL (items s) (addindex (index s) (r_obj r))) r
+  | IAddIndexEach => let '(xs, it') := consume (r_it r) in
+                     let s' := IL (items s) (fold_left addindex xs (index s)) in
+                     if it_fails (r_it r) then Fail s' PyOther else Cont s' (set_it r it')
+  | IAddIndexSelfEach => Cont (IL (items s) (fold_left addindex (items s) (index s))) r
+  | IIndexClear => Cont (IL (items s) []) r
+  | IReindex => match fuel with
+                | O => Fail s OutOfFuel
+                | S f => run_list (exec f) prog_reindex s r
+                end
+  | ICallExtend => match fuel with
+                   | O => Fail s OutOfFuel
+                   | S f => run_list (exec f) prog_extend s r
+                   end
+  end.
+
+Definition run_prog (p : list instr) (s : il) (r : regs) : res := run_list (exec 2) p s r.
+
+Definition regs0 : regs := RG (KInt 0) 0 (0%N, 0%N) (IT [] false false) None None.
+Definition with_key (k : key) (x : obj) : regs := RG k 0 x (IT [] false false) None None.
+Definition with_it (it : iterv) : regs := RG (KInt 0) 0 (0%N, 0%N) it None None.
+
+Definition finish (res0 : res) : il * outcome ret :=
+  match res0 with Cont s r => (s, Ok (r_ret r)) | Fail s e => (s, Raise e) end.
+
+(* attribute assignment: Collada._setIndexedList builds a NEW IndexedList(data, ('id',)); if the
+   constructor raises, the attribute keeps the old list *)
+Definition reassign (s : il) (it : iterv) : il * outcome ret :=
+  match run_prog prog_init init (with_it it) with
+  | Cont s' _ => (s', Ok None)
+  | Fail _ e => (s, Raise e)
+  end.
+
+Definition step (s : il) (o : op) : il * outcome ret :=
+  match o with
+  | Append x => finish (run_prog prog_append s (with_key (KInt 0) x))
+  | Extend xs => finish (run_prog prog_extend s (with_it (IT xs true false)))
+  | IAdd xs => finish (run_prog prog_iadd s (with_it (IT xs true false)))
+  | Insert k x => finish (run_prog prog_insert s (with_key k x))
+  | SetItem k x => finish (run_prog prog_setitem s (with_key k x))
+  | DelItem k => finish (run_prog prog_delitem s (with_key k (0%N, 0%N)))
+  | Pop k => finish (run_prog prog_pop s (with_key (match k with Some k => k | None => KInt (-1) end) (0%N, 0%N)))
+  | Remove k => finish (run_prog prog_remove s (with_key k (0%N, 0%N)))
+  | Clear => finish (run_prog prog_clear s regs0)
+  | Reverse => finish (run_prog prog_reverse s regs0)
+  | Reassign xs => reassign s (IT xs true false)
+  | ReassignRev => reassign s (IT (rev (items s)) true false)
+  | BulkFail => finish (run_prog prog_extend s (with_it (IT [] true true)))
+  | ExtendSelf => finish (run_prog prog_extend s (with_it (IT (items s) false false)))
   end.
 
 Definition run (s : il) (ops : list op) : il := fold_left (fun s o => fst (step s o)) ops s.
